@@ -179,13 +179,27 @@ func c04RunScn(s c04Scn) (res c04Result) {
 	var elapsed time.Duration
 	var finished bool
 	var panicMsg atomic.Value
+	// Every Kill that returns must find the process gone (for a reattached client: at least dead),
+	// also one that overlapped another Kill still in progress.
+	var earlyReturn atomic.Value
 	kill := func() {
 		defer func() {
 			if r := recover(); r != nil {
 				panicMsg.Store(fmt.Sprint(r))
 			}
 		}()
+		start := time.Now()
 		target.Kill()
+		if pid != 0 {
+			st := procState(pid)
+			if st != "" && (st != "Z" || s.Launch != "reattach") {
+				// give the reaper of a reattached plugin a moment; anything else is conclusive
+				if s.Launch == "reattach" && waitPidDead(pid, 3*time.Second) {
+					return
+				}
+				earlyReturn.Store(fmt.Sprintf("a Kill call returned after %v while plugin process %d was still present (state %s)", time.Since(start), pid, st))
+			}
+		}
 	}
 	switch s.Pattern {
 	case "single":
@@ -208,6 +222,10 @@ func c04RunScn(s c04Scn) (res c04Result) {
 	}
 	if m := panicMsg.Load(); m != nil {
 		res.violation = fmt.Sprintf("Kill panicked (%s): %v", desc, m)
+		return
+	}
+	if m := earlyReturn.Load(); m != nil {
+		res.violation = fmt.Sprintf("%v; scenario %s", m, desc)
 		return
 	}
 	if !finished {
